@@ -356,6 +356,17 @@ class Registry(object):
                                      "goal": _short(goal)})
             return True
         if status == "unknown":
+            # no verdict from the solver: the replay adapter may still exhibit a failing input on the real
+            # code (then it is a violation with that input); otherwise the obligation stays undecided
+            if replay is not None:
+                try:
+                    reproduced, rinfo = replay(None)
+                except Exception:
+                    reproduced, rinfo = False, {"replay_error": traceback.format_exc()}
+                if reproduced:
+                    self._violation(o, {"obligation": oid, "goal": _short(goal, 2000), "solver": "unknown/timeout",
+                                        "replay": rinfo}, reproduced=True)
+                    return False
             o.merge("undecided")
             o.detail = {"reason": "solver unknown/timeout", "backend": backend,
                         "goal": _short(goal, 2000)}
